@@ -364,6 +364,49 @@ fn sat_add(a: &U512, b: &U512) -> U512 {
     a.checked_add(b).unwrap_or_else(U512::max_value)
 }
 
+/// The conclusion of theorem `C14.tau_sound`, evaluated with saturating 512-bit arithmetic: if
+/// `verify_tau` passes across `n >= 1` epoch switches, the end epoch difficulty lies in
+/// `[floor(D_s / tau^n), D_s * tau^n]` (the floor taken one division at a time); within one epoch
+/// the compact targets are equal.
+pub fn tau_band_check(c: &TdCase) -> Result<(), String> {
+    let (sn, _, sl) = epoch_fields(c.start_epoch);
+    let (en, _, el) = epoch_fields(c.end_epoch);
+    if sn == en {
+        return if c.start_compact == c.end_compact {
+            Ok(())
+        } else {
+            Err("passes two different compact targets within one epoch".into())
+        };
+    }
+    if en < sn {
+        return Err("passes an end epoch in front of the start epoch".into());
+    }
+    if c.tau < 1 {
+        return Ok(()); // the theorem's premise
+    }
+    let n = en - sn;
+    let ds = sat_mul(&to512(&compact_to_difficulty(c.start_compact)), sl);
+    let de = sat_mul(&to512(&compact_to_difficulty(c.end_compact)), el);
+    let mut lo = ds.clone();
+    let mut hi = ds;
+    let t = U512::from(c.tau);
+    for _ in 0..n.min(600) {
+        lo = &lo / &t;
+        hi = sat_mul(&hi, c.tau);
+    }
+    if c.tau >= 2 && n > 600 {
+        lo = U512::zero();
+        hi = U512::max_value();
+    }
+    if de < lo {
+        return Err(format!("passes an epoch difficulty below the tau band after {} switches", if n >= 64 { ">=64".to_string() } else { n.to_string() }));
+    }
+    if de > hi {
+        return Err(format!("passes an epoch difficulty above the tau band after {} switches", if n >= 64 { ">=64".to_string() } else { n.to_string() }));
+    }
+    Ok(())
+}
+
 /// Is an accepted case consistent with the tau cone?  Returns Err(reason) if the acceptance
 /// contradicts the envelope stated in DESIGN.md (C14_sound).
 pub fn cone_check(c: &TdCase) -> Result<(), String> {
@@ -897,6 +940,16 @@ pub fn run(opts: &Options) -> Report {
                 rep.violate(
                     &format!("C14|complete|verify_tau|{}", tau_cls),
                     &format!("a legal difficulty history fails the tau check ({})", tau_cls),
+                    replay_lines(c, &tau_cls, &m_tau),
+                );
+            }
+        }
+        if tau_cls == "pass" {
+            if let Err(reason) = tau_band_check(c) {
+                let kind = reason.split(" after ").next().unwrap_or("").replace(' ', "-");
+                rep.violate(
+                    &format!("C14|tau-sound|{}", kind),
+                    &format!("verify_tau {}", reason),
                     replay_lines(c, &tau_cls, &m_tau),
                 );
             }
